@@ -330,6 +330,12 @@ class Ctx:
             setattr(o, k, v)
         return o
 
+    def hash_is(self, obj, name):
+        return type(obj).__name__ == name
+
+    def external(self, dotted):
+        return _resolve(dotted)
+
     def lib(self, dotted, *args, **kw):
         return _resolve(dotted)(*args, **kw)
 
